@@ -410,8 +410,15 @@ class ProgGen:
             if w is None:
                 return False
             ws.append(w)
-        self.op(rg, ["CallIndirect"], [f, *ws], list(f["ty"][2]))
+        prev = list(rg.nodes)
+        self.op(rg, ["CallIndirect"], [f, *ws], list(f["ty"][2]), via=self.r.choice(["add_op", "add"]))
         self.feat("call-indirect")
+        if prev and self.r.random() < 0.5:
+            # an indirect call sequenced after an earlier node of the region by an explicit order edge (its function
+            # arrives on a value port: the order port follows the value inputs directly)
+            rg.stmts.append({"s": "order", "src": self.r.choice(prev), "dst": rg.nodes[-1]})
+            self.feat("explicit-order-edge")
+            self.feat("order-edge-into-call-indirect")
         return True
 
     def pick_distinct(self, rg: Region, n, copy_only=False):
